@@ -383,6 +383,9 @@ Proof. unfold Acc. intros L0 g g' L L' ns H1 H2 H3. rewrite H2, life_run_app, H1
 Lemma Acc_same : forall L0 g g' L, Acc L0 g L -> N g' = N g -> Acc L0 g' L.
 Proof. unfold Acc. intros. congruence. Qed.
 
+Lemma cnt_nil : forall x, count_occ oi_dec [] x = 0.
+Proof. reflexivity. Qed.
+
 (* permutation goals over lists of instances, by counting *)
 Ltac perm :=
   try (let tk := fresh "tk" in intro tk;
@@ -393,7 +396,7 @@ Ltac perm :=
          | H : Permutation ?a ?b |- _ =>
            generalize (proj1 (Permutation_count_occ oi_dec a b) H x); clear H
          end;
-  rewrite ?count_occ_app; intros; lia.
+  rewrite ?count_occ_app, ?cnt_nil; intros; lia.
 
 (* ===================================================================== *)
 (* 3. the open instances of a run-time state                               *)
@@ -550,3 +553,481 @@ Proof.
   - apply opn_ctx.
   - apply IH.
 Qed.
+
+(* frames: instances outside a tree never name a task of the tree as their context *)
+Definition sep (F : bool -> list open_inst) (ids : list nat) : Prop :=
+  forall tk o t, In o (F tk) -> In t ids -> oi_ctx o <> Some t.
+
+Lemma sep_sub : forall F ids ids', sep F ids -> incl ids' ids -> sep F ids'.
+Proof. intros F ids ids' H Hi tk o t Ho Ht. apply (H tk o t Ho). apply Hi. exact Ht. Qed.
+
+Lemma sep_extend : forall (F B : bool -> list open_inst) (idsA : list nat) ctx,
+    sep F idsA -> ctx_in ctx B -> ~ In ctx idsA ->
+    (forall t, In t (map oi_id (B true)) -> ~ In t idsA) ->
+    sep (fun tk => B tk ++ F tk) idsA.
+Proof.
+  intros F B idsA ctx HF HB Hc Hd tk o t Ho Ht. apply in_app_iff in Ho. destruct Ho as [Ho|Ho].
+  - destruct (HB _ _ Ho) as [H|(t0 & H1 & H2)]; rewrite ?H, ?H1; intro X; inv X.
+    + exact (Hc Ht).
+    + exact (Hd _ H2 Ht).
+  - exact (HF tk o t Ho Ht).
+Qed.
+
+Lemma NoDup_app_disj : forall (a b : list nat) t, NoDup (a ++ b) -> In t a -> In t b -> False.
+Proof.
+  induction a as [|x a IH]; intros b t H Ha Hb; [contradiction|]. cbn in H. inversion H; subst.
+  destruct Ha as [->|Ha].
+  - apply H2. apply in_or_app. right. exact Hb.
+  - eapply IH; eassumption.
+Qed.
+
+Lemma nd_disj : forall (l a b : list open_inst) t,
+    NoDup (map oi_id l) -> Permutation l (a ++ b) -> In t (map oi_id a) -> In t (map oi_id b) -> False.
+Proof.
+  intros l a b t Hn Hp Ha Hb. apply (Permutation_map oi_id) in Hp. rewrite map_app in Hp.
+  eapply NoDup_app_disj; [eapply Permutation_NoDup; eassumption|exact Ha|exact Hb].
+Qed.
+
+(* ===================================================================== *)
+(* 4. the start family: the monitor accepts, the new open instances are    *)
+(*    exactly those of the returned state                                  *)
+(* ===================================================================== *)
+Definition Fr (g g' : G) : Prop := g_ls g' = g_ls g /\ g_tid g <= g_tid g' /\ g_sid g <= g_sid g'.
+
+Lemma Eff_Fr : forall g g' ids, Eff g g' ids -> Fr g g'.
+Proof. intros g g' ids []. repeat split; assumption. Qed.
+
+Lemma copen_grow : forall ctx L L1 (A : bool -> list open_inst),
+    copen ctx (lf_tasks L) -> (forall tk, Permutation (sel tk L1) (A tk ++ sel tk L)) -> copen ctx (lf_tasks L1).
+Proof.
+  intros ctx L L1 A (o & Hi & He) HP. exists o. split; [|exact He].
+  eapply Permutation_in; [apply Permutation_sym; apply (HP true)|]. apply in_or_app. right. exact Hi.
+Qed.
+
+Definition SPost (L0 L : life) (g' : G) (new : bool -> list open_inst) : Prop :=
+  exists L', Acc L0 g' L' /\ W L' (g_tid g') (g_sid g') /\
+             forall tk, Permutation (sel tk L') (new tk ++ sel tk L).
+
+Section Life.
+  Variable orc : oracle.
+  Variable imm : nat -> bool.
+
+  Lemma start_list_length : forall f ctx l g sts g',
+      start_list orc imm f ctx l g = Ok (sts, g') -> List.length sts = List.length l.
+  Proof.
+    induction f as [|f IH]; intros ctx l g sts g' H; [discriminate|]. cbn [start_list] in H.
+    destruct l as [|[ie b] r]; [mstep; reflexivity|].
+    mstep as st g1 E1. mstep as sts1 g2 E2. mstep. cbn. f_equal. eapply IH. exact E2.
+  Qed.
+
+  (* a quiet step in front of a computation *)
+  Lemma pre_quiet : forall g g1 L0 L,
+      Fr g g1 -> N g1 = N g ->
+      lst_all (g_ls g) -> Acc L0 g L -> W L (g_tid g) (g_sid g) ->
+      lst_all (g_ls g1) /\ Acc L0 g1 L /\ W L (g_tid g1) (g_sid g1).
+  Proof.
+    intros g g1 L0 L (F1 & F2 & F3) HN Hl HA HW. split; [rewrite F1; exact Hl|].
+    split; [eapply Acc_same; eassumption|]. eapply W_mono; eassumption.
+  Qed.
+
+  Lemma start_life : forall f,
+      (forall ctx ie s g st g' L0 L,
+          start_stmt orc imm f ctx ie s g = Ok (st, g') ->
+          lst_all (g_ls g) -> Acc L0 g L -> W L (g_tid g) (g_sid g) -> copen ctx (lf_tasks L) ->
+          SPost L0 L g' (fun tk => opn tk ctx s st)) /\
+      (forall ctx ie ss i g r g' L0 L,
+          run_block orc imm f ctx ie ss i g = Ok (r, g') ->
+          lst_all (g_ls g) -> Acc L0 g L -> W L (g_tid g) (g_sid g) -> copen ctx (lf_tasks L) ->
+          SPost L0 L g' (fun tk => opn_opt tk ctx ss r)) /\
+      (forall ctx l g sts g' L0 L,
+          start_list orc imm f ctx l g = Ok (sts, g') ->
+          lst_all (g_ls g) -> Acc L0 g L -> W L (g_tid g) (g_sid g) -> copen ctx (lf_tasks L) ->
+          SPost L0 L g' (fun tk => opn_list tk ctx (map snd l) sts)) /\
+      (forall ctx ie s k g st g' L0 L,
+          loop_test orc imm f ctx ie s k g = Ok (st, g') ->
+          lst_all (g_ls g) -> Acc L0 g L -> W L (g_tid g) (g_sid g) -> copen ctx (lf_tasks L) ->
+          SPost L0 L g' (fun tk => opn tk ctx s st)).
+  Proof.
+    induction f as [|f IH]; [split; [|split; [|split]]; intros; discriminate|].
+    destruct IH as (IHs & IHb & IHl & IHt).
+    split; [|split; [|split]].
+    - (* start_stmt *)
+      intros ctx ie s g st g' L0 L H Hl HA HW Hc. cbn [start_stmt] in H.
+      destruct s as [n at_ ins|t at_ ins body|bs|e p fl|e b|v lim b|v lim c].
+      + (* service *)
+        destruct (service_N _ _ _ _ _ _ _ _ _ H) as (A1 & A2 & A3 & A4).
+        destruct (life_SS L _ _ n at_ ctx (subst_params ie ins) HW Hc) as (L1 & S1 & W1 & P1).
+        destruct (A4 Hl) as [[-> HN]|[-> HN]].
+        * exists L1. split; [|split].
+          -- eapply Acc_app; [exact HA|exact HN|]. cbn [life_run]. rewrite S1. reflexivity.
+          -- rewrite A2, A3. exact W1.
+          -- exact P1.
+        * destruct (life_SF L1 _ _ n at_ (g_sid g) (Some ctx) (subst_params ie ins) (fun tk => sel tk L) W1 P1)
+            as (L2 & S2 & W2 & P2).
+          exists L2. split; [|split].
+          -- eapply Acc_app; [exact HA|exact HN|]. cbn [life_run]. rewrite S1, S2. reflexivity.
+          -- rewrite A2, A3. exact W2.
+          -- exact P2.
+      + (* call *)
+        mstep as id g1 E1. mstep as u2 g2 E2.
+        destruct (tstart_N _ _ _ _ _ _ _ _ _ E1 E2) as (-> & B1 & B2 & B3 & B4). specialize (B4 Hl).
+        destruct (life_TS L _ _ t at_ ctx (subst_params ie ins) HW Hc) as (L1 & S1 & W1 & P1).
+        mstep as r g3 E3.
+        pose proof (Eff_Fr _ _ _ (proj1 (proj2 (start_eff orc imm f)) _ _ _ _ _ _ _ E3)) as (F1 & F2 & F3).
+        assert (HA1 : Acc L0 g2 L1).
+        { eapply Acc_app; [exact HA|exact B4|]. cbn [life_run]. rewrite S1. reflexivity. }
+        assert (Hc1 : copen (g_tid g) (lf_tasks L1)).
+        { exists (inst (g_tid g) (Some ctx) t at_). split; [|reflexivity].
+          eapply Permutation_in; [apply Permutation_sym; apply (P1 true)|]. left. reflexivity. }
+        assert (W1' : W L1 (g_tid g2) (g_sid g2)) by (rewrite B2, B3; exact W1).
+        assert (Hl2 : lst_all (g_ls g2)) by (rewrite B1; exact Hl).
+        destruct (IHb _ _ _ _ _ _ _ _ _ E3 Hl2 HA1 W1' Hc1) as (L3 & A3 & W3 & P3).
+        destruct r as [[i sti]|].
+        * mstep. exists L3. split; [exact A3|]. split; [exact W3|].
+          intro tk. change (opn tk ctx (XCall t at_ ins body) (RCall (g_tid g) i sti))
+            with ((if tk then [inst (g_tid g) (Some ctx) t at_] else []) ++ opn_opt tk (g_tid g) body (Some (i, sti))).
+          revert tk. perm.
+        * mstep as u4 g4 E4. destruct (emit_frame _ _ _ _ _ E4) as (C1 & C2 & C3).
+          pose proof (emit_N _ _ _ _ _ E4 ltac:(rewrite F1; exact Hl2)) as C4.
+          destruct (life_TF L3 _ _ t at_ (g_tid g) (Some ctx) (subst_params ie ins) (fun tk => sel tk L) W3)
+            as (L4 & S4 & W4 & P4).
+          { cbn [opn_opt] in P3. perm. }
+          { intros tk o Hi Hx. pose proof (w_ctx _ _ _ HW _ _ _ Hi Hx). lia. }
+          mstep. exists L4. split; [|split].
+          -- eapply Acc_app; [exact A3|exact C4|]. cbn [life_run]. rewrite S4. reflexivity.
+          -- rewrite C2, C3. exact W4.
+          -- exact P4.
+      + (* parallel *)
+        mstep as sts g1 E1.
+        destruct (IHl _ _ _ _ _ _ _ E1 Hl HA HW Hc) as (L1 & A1 & W1 & P1).
+        rewrite map_snd_pair in P1.
+        destruct (all_done sts) eqn:D; mstep; exists L1; (split; [exact A1|]); (split; [exact W1|]).
+        * intro tk. specialize (P1 tk). rewrite (opn_list_done _ _ _ _ D) in P1. exact P1.
+        * intro tk. rewrite opn_par. apply P1.
+      + (* condition *)
+        mstep as bb g1 E1.
+        destruct (pre_quiet _ _ _ _ (Eff_Fr _ _ _ (decide_m_eff _ _ _ _ _ _ E1)) (decide_N _ _ _ _ _ _ E1) Hl HA HW)
+          as (Hl1 & HA1 & HW1).
+        mstep as r g2 E2.
+        destruct (IHb _ _ _ _ _ _ _ _ _ E2 Hl1 HA1 HW1 Hc) as (L2 & A2 & W2 & P2).
+        destruct r as [[i sti]|]; mstep; exists L2; (split; [exact A2|]); (split; [exact W2|]); exact P2.
+      + eapply IHt; eassumption.
+      + eapply IHt; eassumption.
+      + (* parallel loop *)
+        mstep as n g1 E1.
+        destruct (pre_quiet _ _ _ _ (Eff_Fr _ _ _ (read_limit_eff _ _ _ _ _ _ E1)) (limit_N _ _ _ _ _ _ E1) Hl HA HW)
+          as (Hl1 & HA1 & HW1).
+        mstep as sts g2 E2.
+        destruct (IHl _ _ _ _ _ _ _ E2 Hl1 HA1 HW1 Hc) as (L2 & A2 & W2 & P2).
+        pose proof (start_list_length _ _ _ _ _ _ E2) as Len. unfold insts in Len. rewrite map_length, seq_length in Len.
+        destruct (all_done sts) eqn:D; mstep; exists L2; (split; [exact A2|]); (split; [exact W2|]).
+        * intro tk. specialize (P2 tk). rewrite (opn_list_insts _ _ _ _ _ _ _ Len), (flat_map_done _ _ _ _ D) in P2. exact P2.
+        * intro tk. specialize (P2 tk). rewrite (opn_list_insts _ _ _ _ _ _ _ Len) in P2. rewrite opn_parloop. exact P2.
+    - (* run_block *)
+      intros ctx ie ss i g r g' L0 L H Hl HA HW Hc. cbn [run_block] in H.
+      destruct (nth_error ss i) as [s1|] eqn:Hn.
+      + mstep as st g1 E1.
+        pose proof (Eff_Fr _ _ _ (proj1 (start_eff orc imm f) _ _ _ _ _ _ E1)) as (F1 & F2 & F3).
+        destruct (IHs _ _ _ _ _ _ _ _ E1 Hl HA HW Hc) as (L1 & A1 & W1 & P1).
+        destruct (is_done st) eqn:D.
+        * assert (Hl1 : lst_all (g_ls g1)) by (rewrite F1; exact Hl).
+          pose proof (copen_grow _ _ _ _ Hc P1) as Hc1.
+          destruct (IHb _ _ _ _ _ _ _ _ _ H Hl1 A1 W1 Hc1) as (L2 & A2 & W2 & P2).
+          exists L2. split; [exact A2|]. split; [exact W2|].
+          assert (P1' : forall tk, Permutation (sel tk L1) ([] ++ sel tk L)).
+          { intro tk. rewrite <- (opn_done tk ctx s1 st D). apply P1. }
+          clear P1. perm.
+        * mstep. exists L1. split; [exact A1|]. split; [exact W1|].
+          intro tk. cbn [opn_opt]. rewrite Hn. apply P1.
+      + mstep. exists L. split; [exact HA|]. split; [exact HW|]. intro tk. apply Permutation_refl.
+    - (* start_list *)
+      intros ctx l g sts g' L0 L H Hl HA HW Hc. cbn [start_list] in H.
+      destruct l as [|[ie b] r].
+      + mstep. exists L. split; [exact HA|]. split; [exact HW|]. intro tk. apply Permutation_refl.
+      + mstep as st g1 E1.
+        pose proof (Eff_Fr _ _ _ (proj1 (start_eff orc imm f) _ _ _ _ _ _ E1)) as (F1 & F2 & F3).
+        destruct (IHs _ _ _ _ _ _ _ _ E1 Hl HA HW Hc) as (L1 & A1 & W1 & P1).
+        mstep as sts1 g2 E2.
+        assert (Hl1 : lst_all (g_ls g1)) by (rewrite F1; exact Hl).
+        pose proof (copen_grow _ _ _ _ Hc P1) as Hc1.
+        destruct (IHl _ _ _ _ _ _ _ E2 Hl1 A1 W1 Hc1) as (L2 & A2 & W2 & P2).
+        mstep. exists L2. split; [exact A2|]. split; [exact W2|].
+        cbn [map snd opn_list]. perm.
+    - (* loop_test *)
+      intros ctx ie s k g st g' L0 L H Hl HA HW Hc. cbn [loop_test] in H.
+      destruct s as [n at_ ins|t at_ ins body|bs|e p fl|e b|v lim b|v lim c]; try discriminate.
+      + mstep as bb g1 E1.
+        destruct (pre_quiet _ _ _ _ (Eff_Fr _ _ _ (decide_m_eff _ _ _ _ _ _ E1)) (decide_N _ _ _ _ _ _ E1) Hl HA HW)
+          as (Hl1 & HA1 & HW1).
+        destruct bb.
+        * mstep as r g2 E2.
+          pose proof (Eff_Fr _ _ _ (proj1 (proj2 (start_eff orc imm f)) _ _ _ _ _ _ _ E2)) as (F1 & F2 & F3).
+          destruct (IHb _ _ _ _ _ _ _ _ _ E2 Hl1 HA1 HW1 Hc) as (L2 & A2 & W2 & P2).
+          destruct r as [[i sti]|].
+          -- mstep. exists L2. split; [exact A2|]. split; [exact W2|]. exact P2.
+          -- assert (Hl2 : lst_all (g_ls g2)) by (rewrite F1; exact Hl1).
+             pose proof (copen_grow _ _ _ _ Hc P2) as Hc2.
+             destruct (IHt _ _ _ _ _ _ _ _ _ H Hl2 A2 W2 Hc2) as (L3 & A3 & W3 & P3).
+             exists L3. split; [exact A3|]. split; [exact W3|]. cbn [opn_opt] in P2. perm.
+        * mstep. exists L. split; [exact HA1|]. split; [exact HW1|]. intro tk. apply Permutation_refl.
+      + mstep as n g1 E1.
+        destruct (pre_quiet _ _ _ _ (Eff_Fr _ _ _ (read_limit_eff _ _ _ _ _ _ E1)) (limit_N _ _ _ _ _ _ E1) Hl HA HW)
+          as (Hl1 & HA1 & HW1).
+        destruct (Z.of_nat k <? n)%Z.
+        * mstep as r g2 E2.
+          pose proof (Eff_Fr _ _ _ (proj1 (proj2 (start_eff orc imm f)) _ _ _ _ _ _ _ E2)) as (F1 & F2 & F3).
+          destruct (IHb _ _ _ _ _ _ _ _ _ E2 Hl1 HA1 HW1 Hc) as (L2 & A2 & W2 & P2).
+          destruct r as [[i sti]|].
+          -- mstep. exists L2. split; [exact A2|]. split; [exact W2|]. exact P2.
+          -- assert (Hl2 : lst_all (g_ls g2)) by (rewrite F1; exact Hl1).
+             pose proof (copen_grow _ _ _ _ Hc P2) as Hc2.
+             destruct (IHt _ _ _ _ _ _ _ _ _ H Hl2 A2 W2 Hc2) as (L3 & A3 & W3 & P3).
+             exists L3. split; [exact A3|]. split; [exact W3|]. cbn [opn_opt] in P2. perm.
+        * mstep. exists L. split; [exact HA1|]. split; [exact HW1|]. intro tk. apply Permutation_refl.
+  Qed.
+
+  (* ---- the deliver family ---- *)
+  Lemma deliver_list_length : forall f ctx l sts id g sts' g',
+      deliver_list orc imm f ctx l sts id g = Ok (Some sts', g') -> List.length sts' = List.length sts.
+  Proof.
+    induction f as [|f IH]; intros ctx l sts id g sts' g' H; [discriminate|]. cbn [deliver_list] in H.
+    destruct l as [|[ie b] br]; [mstep; discriminate|].
+    destruct sts as [|st sr]; [mstep; discriminate|].
+    mstep as r1 g1 E1. destruct r1 as [st'|].
+    - mstep. subst sts'. reflexivity.
+    - mstep as r2 g2 E2. destruct r2 as [sr'|]; mstep; [|discriminate].
+      subst sts'. cbn. f_equal. eapply IH. exact E2.
+  Qed.
+
+  Definition DPost (L0 : life) (g' : G) (F new : bool -> list open_inst) : Prop :=
+    exists L', Acc L0 g' L' /\ W L' (g_tid g') (g_sid g') /\
+               forall tk, Permutation (sel tk L') (new tk ++ F tk).
+
+  Definition dpost {A} (L0 : life) (g' : G) (F : bool -> list open_inst)
+             (new : A -> bool -> list open_inst) (r : option A) : Prop :=
+    match r with
+    | None => True
+    | Some a => DPost L0 g' F (new a)
+    end.
+
+  Lemma dres_ls : forall A (len : A -> nat) g nb (r : option A) g', dres len g nb r g' -> g_ls g' = g_ls g.
+  Proof. intros A len g nb [a|] g' H; cbn in H; [apply (d_ls _ _ _ _ H)|congruence]. Qed.
+
+  Lemma copen_F : forall ctx L1 (A F : bool -> list open_inst),
+      copen ctx (F true) -> (forall tk, Permutation (sel tk L1) (A tk ++ F tk)) -> copen ctx (lf_tasks L1).
+  Proof.
+    intros ctx L1 A F (o & Hi & He) HP. exists o. split; [|exact He].
+    eapply Permutation_in; [apply Permutation_sym; apply (HP true)|]. apply in_or_app. right. exact Hi.
+  Qed.
+
+  Lemma deliver_life : forall f,
+      (forall ctx ie s st id g r g' L0 L F,
+          deliver orc imm f ctx ie s st id g = Ok (r, g') ->
+          lst_all (g_ls g) -> Acc L0 g L -> W L (g_tid g) (g_sid g) ->
+          (forall tk, Permutation (sel tk L) (opn tk ctx s st ++ F tk)) ->
+          copen ctx (F true) -> sep F (map oi_id (opn true ctx s st)) ->
+          dpost L0 g' F (fun st' tk => opn tk ctx s st') r) /\
+      (forall ctx ie ss i sti id g r g' L0 L F,
+          deliver_block orc imm f ctx ie ss i sti id g = Ok (r, g') ->
+          lst_all (g_ls g) -> Acc L0 g L -> W L (g_tid g) (g_sid g) ->
+          (forall tk, Permutation (sel tk L) (opn_opt tk ctx ss (Some (i, sti)) ++ F tk)) ->
+          copen ctx (F true) -> sep F (map oi_id (opn_opt true ctx ss (Some (i, sti)))) ->
+          dpost L0 g' F (fun r' tk => opn_opt tk ctx ss r') r) /\
+      (forall ctx l sts id g r g' L0 L F,
+          deliver_list orc imm f ctx l sts id g = Ok (r, g') ->
+          lst_all (g_ls g) -> Acc L0 g L -> W L (g_tid g) (g_sid g) ->
+          (forall tk, Permutation (sel tk L) (opn_list tk ctx (map snd l) sts ++ F tk)) ->
+          copen ctx (F true) -> sep F (map oi_id (opn_list true ctx (map snd l) sts)) ->
+          dpost L0 g' F (fun sts' tk => opn_list tk ctx (map snd l) sts') r).
+  Proof.
+    induction f as [|f IH]; [split; [|split]; intros; discriminate|].
+    destruct IH as (IHd & IHb & IHl).
+    split; [|split].
+    - (* deliver *)
+      intros ctx ie s st id g r g' L0 L F H Hl HA HW HP HF Hsep. cbn [deliver] in H.
+      destruct s as [n at_ ins|t at_ ins body|bs|e p fl|e b|v lim b|v lim c];
+        destruct st as [|id'|cid i sti|sts|bb i sti|k i sti|sts];
+        try (mstep; exact I).
+      + (* service *)
+        destruct (Nat.eqb id id') eqn:Eq; [|mstep; exact I].
+        apply Nat.eqb_eq in Eq. subst id'.
+        mstep as u g1 E1. destruct (emit_frame _ _ _ _ _ E1) as (C1 & C2 & C3).
+        pose proof (emit_N _ _ _ _ _ E1 Hl) as C4. mstep.
+        destruct (life_SF L _ _ n at_ id (Some ctx) (subst_params ie ins) F HW HP) as (L1 & S1 & W1 & P1).
+        exists L1. split; [|split].
+        * eapply Acc_app; [exact HA|exact C4|]. cbn [life_run]. rewrite S1. reflexivity.
+        * rewrite C2, C3. exact W1.
+        * exact P1.
+      + (* call *)
+        mstep as r1 g1 E1.
+        pose proof (dres_ls _ _ _ _ _ _ (proj1 (proj2 (deliver_eff orc imm f)) _ _ _ _ _ _ _ _ _ E1)) as Ls1.
+        set (T := inst cid (Some ctx) t at_) in *.
+        set (F' := fun tk : bool => (if tk then [T] else []) ++ F tk).
+        assert (HP0 : forall tk, Permutation (sel tk L)
+                 (((if tk then [T] else []) ++ opn_opt tk cid body (Some (i, sti))) ++ F tk)) by exact HP.
+        assert (Hsep0 : sep F (cid :: map oi_id (opn_opt true cid body (Some (i, sti))))) by exact Hsep.
+        assert (HP' : forall tk, Permutation (sel tk L) (opn_opt tk cid body (Some (i, sti)) ++ F' tk)).
+        { unfold F'. clear - HP0. perm. }
+        assert (HF' : copen cid (F' true)).
+        { exists T. split; [left; reflexivity|reflexivity]. }
+        assert (Hsep' : sep F' (map oi_id (opn_opt true cid body (Some (i, sti))))).
+        { apply (sep_extend F (fun tk : bool => if tk then [T] else []) _ ctx).
+          - eapply sep_sub; [exact Hsep0|]. intros x Hx. right. exact Hx.
+          - intros tk o Hi. destruct tk; [|contradiction]. destruct Hi as [<-|[]]. left. reflexivity.
+          - intro Hi. destruct HF as (o' & Ho' & Hid').
+            eapply (nd_disj _ _ _ ctx (w_nd _ _ _ HW) (HP0 true)).
+            + rewrite map_app. apply in_or_app. right. exact Hi.
+            + rewrite <- Hid'. apply in_map. exact Ho'.
+          - intros t0 Ht0 Hi. destruct Ht0 as [<-|[]].
+            assert (Q : Permutation (lf_tasks L) ([T] ++ (opn_opt true cid body (Some (i, sti)) ++ F true))).
+            { specialize (HP0 true). cbn [sel] in HP0. clear - HP0. perm. }
+            eapply (nd_disj _ _ _ cid (w_nd _ _ _ HW) Q).
+            + left. reflexivity.
+            + rewrite map_app. apply in_or_app. left. exact Hi. }
+        pose proof (IHb _ _ _ _ _ _ _ _ _ _ _ _ E1 Hl HA HW HP' HF' Hsep') as R1.
+        destruct r1 as [[[j st']|]|]; cbn [dpost] in R1.
+        * mstep. destruct R1 as (L1 & A1 & W1 & P1). exists L1. split; [exact A1|]. split; [exact W1|].
+          intro tk. change (opn tk ctx (XCall t at_ ins body) (RCall cid j st'))
+            with ((if tk then [T] else []) ++ opn_opt tk cid body (Some (j, st'))).
+          unfold F' in P1. clear - P1. revert tk. perm.
+        * destruct R1 as (L1 & A1 & W1 & P1).
+          mstep as u g2 E2. destruct (emit_frame _ _ _ _ _ E2) as (C1 & C2 & C3).
+          pose proof (emit_N _ _ _ _ _ E2 ltac:(rewrite Ls1; exact Hl)) as C4. mstep.
+          destruct (life_TF L1 _ _ t at_ cid (Some ctx) (subst_params ie ins) F W1) as (L2 & S2 & W2 & P2).
+          { fold T. unfold F' in P1. cbn [opn_opt] in P1. clear - P1. perm. }
+          { intros tk o Hi. apply (Hsep0 tk o cid Hi). left. reflexivity. }
+          exists L2. split; [|split].
+          -- eapply Acc_app; [exact A1|exact C4|]. cbn [life_run]. rewrite S2. reflexivity.
+          -- rewrite C2, C3. exact W2.
+          -- exact P2.
+        * mstep. exact I.
+      + (* parallel *)
+        mstep as r1 g1 E1.
+        assert (HP' : forall tk, Permutation (sel tk L)
+                   (opn_list tk ctx (map snd (map (fun b => (ie, b)) bs)) sts ++ F tk)).
+        { intro tk. rewrite map_snd_pair, <- opn_par. apply HP. }
+        assert (Hsep' : sep F (map oi_id (opn_list true ctx (map snd (map (fun b => (ie, b)) bs)) sts))).
+        { rewrite map_snd_pair, <- opn_par. exact Hsep. }
+        pose proof (IHl _ _ _ _ _ _ _ _ _ _ E1 Hl HA HW HP' HF Hsep') as R1.
+        destruct r1 as [sts'|]; cbn [dpost] in R1; [|mstep; exact I].
+        destruct R1 as (L1 & A1 & W1 & P1). rewrite map_snd_pair in P1.
+        destruct (all_done sts') eqn:D; mstep; exists L1; (split; [exact A1|]); (split; [exact W1|]).
+        * intro tk. specialize (P1 tk). rewrite (opn_list_done _ _ _ _ D) in P1. exact P1.
+        * intro tk. rewrite opn_par. apply P1.
+      + (* condition *)
+        mstep as r1 g1 E1.
+        pose proof (IHb _ _ _ _ _ _ _ _ _ _ _ _ E1 Hl HA HW HP HF Hsep) as R1.
+        destruct r1 as [[[j st']|]|]; cbn [dpost] in R1; mstep; exact R1.
+      + (* while *)
+        mstep as r1 g1 E1.
+        pose proof (dres_ls _ _ _ _ _ _ (proj1 (proj2 (deliver_eff orc imm f)) _ _ _ _ _ _ _ _ _ E1)) as Ls1.
+        pose proof (IHb _ _ _ _ _ _ _ _ _ _ _ _ E1 Hl HA HW HP HF Hsep) as R1.
+        destruct r1 as [[[j st']|]|]; cbn [dpost] in R1.
+        * mstep. exact R1.
+        * destruct R1 as (L1 & A1 & W1 & P1).
+          mstep as st' g2 E2.
+          destruct (proj2 (proj2 (proj2 (start_life f))) _ _ _ _ _ _ _ _ _ E2
+                          ltac:(rewrite Ls1; exact Hl) A1 W1 (copen_F _ _ _ _ HF P1)) as (L2 & A2 & W2 & P2).
+          mstep. exists L2. split; [exact A2|]. split; [exact W2|]. cbn [opn_opt] in P1. clear - P1 P2. perm.
+        * mstep. exact I.
+      + (* counting loop *)
+        mstep as r1 g1 E1.
+        pose proof (dres_ls _ _ _ _ _ _ (proj1 (proj2 (deliver_eff orc imm f)) _ _ _ _ _ _ _ _ _ E1)) as Ls1.
+        pose proof (IHb _ _ _ _ _ _ _ _ _ _ _ _ E1 Hl HA HW HP HF Hsep) as R1.
+        destruct r1 as [[[j st']|]|]; cbn [dpost] in R1.
+        * mstep. exact R1.
+        * destruct R1 as (L1 & A1 & W1 & P1).
+          mstep as st' g2 E2.
+          destruct (proj2 (proj2 (proj2 (start_life f))) _ _ _ _ _ _ _ _ _ E2
+                          ltac:(rewrite Ls1; exact Hl) A1 W1 (copen_F _ _ _ _ HF P1)) as (L2 & A2 & W2 & P2).
+          mstep. exists L2. split; [exact A2|]. split; [exact W2|]. cbn [opn_opt] in P1. clear - P1 P2. perm.
+        * mstep. exact I.
+      + (* parallel loop *)
+        mstep as r1 g1 E1.
+        assert (HP' : forall tk, Permutation (sel tk L)
+                   (opn_list tk ctx (map snd (insts ie v c (List.length sts))) sts ++ F tk)).
+        { intro tk. rewrite (opn_list_insts _ _ _ _ _ _ _ eq_refl), <- (opn_parloop tk ctx v lim). apply HP. }
+        assert (Hsep' : sep F (map oi_id (opn_list true ctx (map snd (insts ie v c (List.length sts))) sts))).
+        { rewrite (opn_list_insts _ _ _ _ _ _ _ eq_refl), <- (opn_parloop true ctx v lim). exact Hsep. }
+        pose proof (IHl _ _ _ _ _ _ _ _ _ _ E1 Hl HA HW HP' HF Hsep') as R1.
+        destruct r1 as [sts'|]; cbn [dpost] in R1; [|mstep; exact I].
+        pose proof (deliver_list_length _ _ _ _ _ _ _ _ E1) as Len.
+        destruct R1 as (L1 & A1 & W1 & P1).
+        destruct (all_done sts') eqn:D; mstep; exists L1; (split; [exact A1|]); (split; [exact W1|]).
+        * intro tk. specialize (P1 tk).
+          rewrite (opn_list_insts _ _ _ _ _ _ _ Len), (flat_map_done _ _ _ _ D) in P1. exact P1.
+        * intro tk. specialize (P1 tk). rewrite (opn_list_insts _ _ _ _ _ _ _ Len) in P1.
+          rewrite opn_parloop. exact P1.
+    - (* deliver_block *)
+      intros ctx ie ss i sti id g r g' L0 L F H Hl HA HW HP HF Hsep. cbn [deliver_block] in H.
+      cbn [opn_opt] in HP, Hsep.
+      destruct (nth_error ss i) as [s1|] eqn:Hn; [|mstep; exact I].
+      mstep as r1 g1 E1.
+      pose proof (dres_ls _ _ _ _ _ _ (proj1 (deliver_eff orc imm f) _ _ _ _ _ _ _ _ E1)) as Ls1.
+      pose proof (IHd _ _ _ _ _ _ _ _ _ _ _ E1 Hl HA HW HP HF Hsep) as R1.
+      destruct r1 as [st'|]; cbn [dpost] in R1; [|mstep; exact I].
+      destruct R1 as (L1 & A1 & W1 & P1).
+      destruct (is_done st') eqn:D.
+      + mstep as r' g2 E2.
+        destruct (proj1 (proj2 (start_life f)) _ _ _ _ _ _ _ _ _ E2
+                        ltac:(rewrite Ls1; exact Hl) A1 W1 (copen_F _ _ _ _ HF P1)) as (L2 & A2 & W2 & P2).
+        mstep. exists L2. split; [exact A2|]. split; [exact W2|].
+        assert (P1' : forall tk, Permutation (sel tk L1) ([] ++ F tk)).
+        { intro tk. rewrite <- (opn_done tk ctx s1 st' D). apply P1. }
+        clear - P1' P2. perm.
+      + mstep. exists L1. split; [exact A1|]. split; [exact W1|].
+        intro tk. cbn [opn_opt]. rewrite Hn. apply P1.
+    - (* deliver_list *)
+      intros ctx l sts id g r g' L0 L F H Hl HA HW HP HF Hsep. cbn [deliver_list] in H.
+      destruct l as [|[ie b] br]; [mstep; exact I|].
+      destruct sts as [|st sr]; [mstep; exact I|].
+      cbn [map snd opn_list] in HP, Hsep. rewrite map_app in Hsep.
+      set (A := fun tk : bool => opn tk ctx b st) in *.
+      set (B := fun tk : bool => opn_list tk ctx (map snd br) sr) in *.
+      assert (HPt : Permutation (lf_tasks L) (A true ++ (B true ++ F true))).
+      { specialize (HP true). cbn [sel] in HP. unfold A, B. clear - HP. perm. }
+      assert (HPt' : Permutation (lf_tasks L) (B true ++ (A true ++ F true))).
+      { specialize (HP true). cbn [sel] in HP. unfold A, B. clear - HP. perm. }
+      assert (NoA : ~ In ctx (map oi_id (A true))).
+      { intro Hi. destruct HF as (o' & Ho' & Hid').
+        eapply (nd_disj _ _ _ ctx (w_nd _ _ _ HW) HPt); [exact Hi|].
+        rewrite map_app. apply in_or_app. right. rewrite <- Hid'. apply in_map. exact Ho'. }
+      assert (NoB : ~ In ctx (map oi_id (B true))).
+      { intro Hi. destruct HF as (o' & Ho' & Hid').
+        eapply (nd_disj _ _ _ ctx (w_nd _ _ _ HW) HPt'); [exact Hi|].
+        rewrite map_app. apply in_or_app. right. rewrite <- Hid'. apply in_map. exact Ho'. }
+      mstep as r1 g1 E1.
+      pose proof (proj1 (deliver_eff orc imm f) _ _ _ _ _ _ _ _ E1) as DE1.
+      assert (HP1 : forall tk, Permutation (sel tk L) (A tk ++ (fun tk => B tk ++ F tk) tk)).
+      { unfold A, B. clear - HP. perm. }
+      assert (HF1 : copen ctx ((fun tk => B tk ++ F tk) true)).
+      { destruct HF as (o' & Ho' & Hid'). exists o'. split; [apply in_or_app; right; exact Ho'|exact Hid']. }
+      assert (Hsep1 : sep (fun tk => B tk ++ F tk) (map oi_id (A true))).
+      { apply (sep_extend F B _ ctx).
+        - eapply sep_sub; [exact Hsep|]. intros x Hx. apply in_or_app. left. exact Hx.
+        - apply opn_list_ctx.
+        - exact NoA.
+        - intros t0 Ht0 Hi. eapply (nd_disj _ _ _ t0 (w_nd _ _ _ HW) HPt); [exact Hi|].
+          rewrite map_app. apply in_or_app. left. exact Ht0. }
+      pose proof (IHd _ _ _ _ _ _ _ _ _ _ _ E1 Hl HA HW HP1 HF1 Hsep1) as R1.
+      destruct r1 as [st'|]; cbn [dpost dres] in R1, DE1.
+      + mstep. destruct R1 as (L1 & A1 & W1 & P1). exists L1. split; [exact A1|]. split; [exact W1|].
+        cbn [map snd opn_list]. unfold B in P1. cbn beta in P1. clear - P1. perm.
+      + subst g1. mstep as r2 g2 E2.
+        assert (HP2 : forall tk, Permutation (sel tk L) (B tk ++ (fun tk => A tk ++ F tk) tk)).
+        { unfold A, B. clear - HP. perm. }
+        assert (HF2 : copen ctx ((fun tk => A tk ++ F tk) true)).
+        { destruct HF as (o' & Ho' & Hid'). exists o'. split; [apply in_or_app; right; exact Ho'|exact Hid']. }
+        assert (Hsep2 : sep (fun tk => A tk ++ F tk) (map oi_id (B true))).
+        { apply (sep_extend F A _ ctx).
+          - eapply sep_sub; [exact Hsep|]. intros x Hx. apply in_or_app. right. exact Hx.
+          - apply opn_ctx.
+          - exact NoB.
+          - intros t0 Ht0 Hi. eapply (nd_disj _ _ _ t0 (w_nd _ _ _ HW) HPt'); [exact Hi|].
+            rewrite map_app. apply in_or_app. left. exact Ht0. }
+        pose proof (IHl _ _ _ _ _ _ _ _ _ _ E2 Hl HA HW HP2 HF2 Hsep2) as R2.
+        destruct r2 as [sr'|]; cbn [dpost] in R2; mstep; [|exact I].
+        destruct R2 as (L2 & A2 & W2 & P2). exists L2. split; [exact A2|]. split; [exact W2|].
+        cbn [map snd opn_list]. unfold A in P2. cbn beta in P2. clear - P2. perm.
+  Qed.
+End Life.
